@@ -56,7 +56,20 @@ Reload(d) == /\ Step
              /\ UNCHANGED <<contents, status, sent, remote>>
              /\ events' = [events EXCEPT ![d] = @]
 
-Next == \/ \E d \in DB : Write(d)
+\* a head that names another database of the instance as its log is delivered on d's topic by the remote writer
+\* (who may write to d): d refuses it, and nothing changes for the database it names either
+Foreign(d) == /\ Step /\ d \notin Closed
+              /\ UNCHANGED <<contents, status, events, sent, remote>>
+
+\* the remote writer of d writes an operation the index of this implementation cannot read (another implementation's
+\* encoding of a value) and it is replicated: d's own view is out of the model from here on (its index update fails
+\* half-way, every time); nothing changes for the others, now or later
+Garbage(d) == /\ Step /\ d \notin Closed
+              /\ UNCHANGED <<contents, status, events, sent, remote>>
+
+Next == \/ \E d \in DB : Foreign(d)
+        \/ \E d \in DB : Garbage(d)
+        \/ \E d \in DB : Write(d)
         \/ \E d \in DB : RemoteWrite(d)
         \/ \E d \in DB : Replicate(d)
         \/ \E d \in DB : Reload(d)
